@@ -336,6 +336,37 @@ pub fn run(ctx: &Ctx, rep: &mut Report) {
                     let (nm, sy) = if op == "deploy-same-deployer-salt-other-metadata" { (b"Other".to_vec(), b"OTH".to_vec()) } else { (name.clone(), symbol.clone()) };
                     let view_id = w.view_token_id(&dep, &salt);
                     rep.step(format!("{} cfg={} taken={}", op, cfg, taken));
+                    // the deployer's authorisation for exactly this deployment must not let a third
+                    // party obtain minting rights, other metadata or another supply under the same id
+                    if !taken && rng.chance(1, 2) {
+                        let forest = w.record_deploy(&dep, &salt, &nm, &sy, decimals, supply, minter.clone());
+                        let ck = w.u.checkpoint();
+                        let gm = w.g.model.clone();
+                        let (h_min, h_nm, h_dec, h_sup, what) = match rng.below(4) {
+                            0 => (Some(third.clone()), nm.clone(), decimals, supply, "minter"),
+                            1 => (minter.clone(), b"Hijacked".to_vec(), decimals, supply, "name"),
+                            2 => (minter.clone(), nm.clone(), if decimals == 7 { 8 } else { 7 }, supply, "decimals"),
+                            _ => (minter.clone(), nm.clone(), decimals, supply.saturating_add(1_000), "supply"),
+                        };
+                        if h_min != minter || what != "minter" {
+                            let o = w.do_deploy(&dep, &salt, &h_nm, &sy, h_dec, h_sup, h_min, Auth::Forest(forest));
+                            rep.count("op:deploy-with-authorisation-for-other-arguments");
+                            rep.eval("deploy-hijack", &format!("hijack|{}|{}", what, o.ok()), true);
+                            let leak = o.leak.clone();
+                            w.u.restore(&ck);
+                            w.g.model = gm;
+                            if let Some(l) = leak {
+                                rep.violation("failed-deployment-left-trace:hijack", l);
+                                alive = false;
+                                continue;
+                            }
+                            if o.ok() {
+                                rep.violation(&format!("deployed-with-undesignated:{}", what), format!("a deployment with another {} went through on the deployer's authorisation for the original arguments", what));
+                                alive = false;
+                                continue;
+                            }
+                        }
+                    }
                     let o = w.do_deploy(&dep, &salt, &nm, &sy, decimals, supply, minter.clone(), Auth::Only(vec![dep.clone()]));
                     rep.count(&format!("op:{}", op));
                     if !taken {
